@@ -305,3 +305,7 @@ def run(ctx: Ctx, rep: Report, tier: str):
     c.x5()
     c.x6()
     c.x7()
+    from rules.common import alias
+    from rules.C06 import C06
+    alias(rep, ["C06.R5"], "C11.X8", "after a restart the indexes are rebuilt for every stored entry: each loaded entry is entered in the id index and in the (path, id) "
+          "index of both sides (C06.R5), so two entries sharing a path are both found", 1, lambda: C06(ctx, rep).r5(), keep=lambda i: i.key == "load|indexes")
